@@ -223,17 +223,14 @@ Example timely_run_example :
   map (fun nd => e_fin (n_eng nd)) (world_after cfg4 (map (init_node gen) [1;2;3;4]) live_run) = [b_id (lb 4); b_id (lb 4); b_id (lb 4); b_id (lb 4)].
 Proof. cbv zeta. vm_compute. repeat split; try reflexivity; discriminate. Qed.
 
-(* 4. general safety.  The statement over all valid runs (every honest block proposed by its signer on its own best
-      block with the engine's COM bit, score increments within 1..n being *data* of the run, fewer than a third
-      Byzantine) is REFUTED in the model: the `quality >= headQuality-1` window of ShouldVote forgets an own
-      conflicting vote once the head quality has moved two ahead (DESIGN §5-F4; n = 4, one Byzantine).  The witness
-      needs two honest validators to move, at equal quality, to a head that does not extend their last vote
-      (f4_run_outside_premise); whether real block production (scheduler scores) permits that is not settled, so the
-      safety statement under the explicit fork-choice premise stays a Prop (bft_safety_under_premise): _partial. *)
-(* proved parts of the safety argument (DESIGN §4): the node invariants hold along any event history; Lemma A; Lemma B;
-   the intersection half of same_quality_commit_exclusive.  What stays open: same_quality_commit_exclusive itself (the
-   run-level link "the later of an honest validator's two COM votes still sees the earlier one in its votes record",
-   across Mark overwrites, restarts and the finalized filter) and bft_safety_under_premise. *)
+(* 4. general safety (first sentence).  The statement over all valid runs (every honest block proposed by its signer on its
+      own best block with the engine's COM bit, fewer than a third Byzantine) is REFUTED: in the model (4e), with
+      scheduler-conformant scores (4e), and on the real code at node level (known finding F4, harness/internal/bftsim/f4real.go).
+      The `quality >= headQuality-1` window of ShouldVote forgets an own conflicting COM vote once the head quality is two
+      ahead.  What is proved instead: the node/world invariants along every valid run (4b), the run-level lock fact (4c), and
+      the exact shape every conflicting pair of finalized checkpoints must have (4d) - equal qualities are safe, a later vote
+      in the lower epoch is safe, the one open shape is the F4 shape.  Lemma A and "Lemma B" below are single-state facts
+      (B merely restates ShouldVote's own test; the lock fact proper is 4b/4c).  bft_safety_under_premise stays a Prop. *)
 Theorem node_invariants_along_events c guard nd : 0 < c_L c -> inv c nd ->
   (forall b, valid_child (n_repo nd) b -> inv c (fst (import guard c nd b))) /\
   (forall b, valid_child (n_repo nd) b -> known (n_repo nd) (b_id b) = false -> known (n_repo nd) (b_parent b) = true ->
